@@ -459,6 +459,9 @@ func buildKernelCase(r *rand.Rand, o *vlib.Oracles, ts []*vlib.Target, goarch st
 	probes := probeNames[goarch]
 	narrow := goarch == "386"
 	p := genProbePolicy(r, t, probes, style, narrow, lethalOK)
+	if r.Intn(8) == 0 && lethalOK {
+		vlib.AddDataBits(r, p) // ERRNO|EACCES, TRACE|7, LOG|1, ...: the kernel's treatment of the data bits is the oracle's
+	}
 	if killThread {
 		p.Syscalls = append([]seccomp.SyscallGroup{{Names: []string{probes[r.Intn(len(probes))]}, Action: vlib.RetKillThread}}, p.Syscalls...)
 		// no duplicate of that name inside the same group is possible: it is a group of its own
